@@ -62,7 +62,7 @@ pub open spec fn no_stop_so_far(lg: RunLog) -> bool { forall|k: int| 0 <= k < lg
 #[verifier::external_body]
 pub fn expand_args(line: &str, args: &[String]) -> (r: String) { unimplemented!() }
 #[verifier::external_body]
-pub fn vx_args_tail(args: &Vec<String>) -> (r: &[String]) requires args@.len() >= 1 { &args[1..] }
+pub fn vx_args_tail(args: &Vec<String>) -> (r: &[String]) requires args@.len() >= 1 ensures r@ == args@.skip(1) { &args[1..] }
 #[verifier::external_body]
 pub fn run_command_line(sh: &mut Shell, line: &str, tty: bool, capture: bool) -> (r: Vec<CommandResult>) { unimplemented!() }
 #[verifier::external_body]
@@ -96,10 +96,29 @@ impl Shell {
 }
 #[verifier::external_body]
 pub fn get_for_var_name(pair_head: VxPair) -> (r: String) { unimplemented!() }
+// the words of a `for` head: a function of the head node and of the argument vector it is given (and of the shell state: left out, the clause below only compares argument vectors)
+pub uninterp spec fn for_words(head: VxPair, args: Seq<String>) -> Seq<String>;
 #[verifier::external_body]
-pub fn get_for_result_list(sh: &mut Shell, pair_head: VxPair, args: &[String]) -> (r: Vec<String>) { unimplemented!() }
+pub fn get_for_result_list(sh: &mut Shell, pair_head: VxPair, args: &[String]) -> (r: Vec<String>) ensures r@ == for_words(pair_head, args@) { unimplemented!() }
 #[verifier::external_body]
 pub fn vx_args_slice(args: &Vec<String>) -> (r: &[String]) ensures r@ == args@ { args.as_slice() }
+
+// ---- expand_line_to_toknes: the passes over the words of a `for` head, in the order they are applied ----
+pub struct LineInfo { pub tokens: Vec<(String, String)>, pub is_complete: bool }
+#[verifier::external_body]
+pub fn parse_line(line: &str) -> (r: LineInfo) { unimplemented!() }
+pub ghost struct PassLog { pub passes: Seq<int> }
+#[verifier::external_body]
+pub proof fn new_passlog() -> (tracked r: PassLog) ensures r.passes.len() == 0 { unimplemented!() }
+// pass 1: positional parameters ($0 $1 .. $@) -- contract in U-ARGS;  pass 2: every other expansion -- contracts in U-EXP1..3
+#[verifier::external_body]
+pub fn expand_args_in_tokens(tokens: &mut Vec<(String, String)>, args: &[String], Tracked(pl): Tracked<&mut PassLog>)
+    ensures final(pl).passes == old(pl).passes.push(1int)
+{ unimplemented!() }
+#[verifier::external_body]
+pub fn do_expansion(sh: &mut Shell, tokens: &mut Vec<(String, String)>, Tracked(pl): Tracked<&mut PassLog>)
+    ensures final(pl).passes == old(pl).passes.push(2int)
+{ unimplemented!() }
 #[verifier::external_body]
 pub fn run_exp_test_br(sh: &mut Shell, pair_br: VxPair, args: &Vec<String>, in_loop: bool, capture: bool) -> (r: (Vec<CommandResult>, bool, bool, bool)) { unimplemented!() }
 #[verifier::external_body]
@@ -123,6 +142,7 @@ pub fn vx_unreachable_by_grammar() { }
 //@FN run_exp_test_br_real
 //@FN run_exp_if_real
 //@FN run_exp_for_real
+//@FN expand_line_to_toknes
 //@FN run_lines
 ''' + common.TAIL
 
@@ -245,13 +265,22 @@ exp_for = Fn(S, 'run_exp_for', rename='run_exp_for_real', ret='r',
                    ensures=[('C15.for.loop_left_with_a_prefix_of_the_rounds', 'exists|n: int| 0 <= n <= result_list@.len() && fl.rounds == rounds_of(var_name@, result_list@, n)'),
                             ('C15.for.no_round_after_a_failing_command_under_set_e', 'nothing_after_stop(lgf)')])},
     hints={'after-text:if rule == Rule::EXP_BODY {': 'RAW: let tracked mut fl = new_forlog(); let tracked mut lgf = new_log();',
+           'after-call:get_for_result_list': 'LABEL:C15.for.the_word_list_is_computed_from_the_whole_argument_vector: assert(result_list@ == for_words(pair, args@));',
            'loop-1-body-entry': 'note_start(&mut lgf);',
            'before-call:run_exp': 'RAW: let tracked mut lg2 = new_log();',
            'after-call:append': 'note_check(&mut lgf, stop_spec(cr_list@, *sh)); assert(fl.rounds =~= rounds_of(var_name@, result_list@, __i1 as int));',
            'loop-1-exit': 'LABEL:C10+C15.for.one_round_per_word_in_order_with_the_variable_set_to_it: assert(exists|n: int| 0 <= n <= result_list@.len() && fl.rounds == rounds_of(var_name@, result_list@, n));'
                           ' ;;; LABEL:C15.for.nothing_runs_after_a_failing_command_under_set_e: assert(nothing_after_stop(lgf));'},
 )
-UNIT = Unit('U-SCRIPT', TEMPLATE, fns=[stopped_by_error, run_exp_while, run_exp, test_br, exp_if, exp_for, run_lines],
+
+for_words = Fn(S, 'expand_line_to_toknes', ret='r',
+    pre_rewrites=RW + [Rw('parsers::parser_line::parse_line(', 'parse_line(', rule='R0'), Rw('shell::do_expansion(', 'do_expansion(', rule='R0'), Rw('types::Tokens', 'Vec<(String, String)>', rule='R0')],
+    add_params='Tracked(pl): Tracked<&mut PassLog>',
+    ghost_args={'expand_args_in_tokens': 'Tracked(pl)', 'do_expansion': 'Tracked(pl)'},
+    requires=[('C15.pre.for_words.fresh_log', 'old(pl).passes.len() == 0')],
+    ensures=[('C10+C15.for_words.positional_parameters_first_then_the_other_expansions_each_once', 'final(pl).passes == seq![1int, 2int]')],
+)
+UNIT = Unit('U-SCRIPT', TEMPLATE, fns=[stopped_by_error, run_exp_while, run_exp, test_br, exp_if, exp_for, for_words, run_lines],
             types=[TypeItem('src/types.rs', 'struct', 'CommandResult')], props=('C15', 'C05'))
 TRUSTED = common.TRUSTED_STR + [
     'the pest parse tree is opaque: the text, rule and children of a node are uninterpreted (the grammar locust.pest is outside the verifier); '
